@@ -16,7 +16,7 @@ CHECKS = {
   note="OpenCV box filters are modelled as zero-border window sums (validated by the correspondence run on integer data where "
        "float32 sums are exact); rasterio.fill.fillnodata is a parameter of the model (its output is fed to the model); "
        "numpy std/percentile enter through the block normalisation pair (n0, n1) taken from the code."
-       ' Input strata added from the seeded-change rounds: kernels up to 19 x 21 on fully valid blocks, sources negative throughout, block normalisation compared with its definition. Since round 8: a second fit against a reference block object that already went through another fit (the blocks are zeroed in place under their cached masks); the acceptance test and the warning of validate_kernel_shape are extracted from the source text and proved equal to the model\'s (Props/SrcTieCli.lean).',
+       ' Input strata added from the seeded-change rounds: kernels up to 19 x 21 on fully valid blocks, sources negative throughout, block normalisation compared with its definition. Since round 8: a second fit against a reference block object that already went through another fit (the blocks are zeroed in place under their cached masks); the acceptance test and the warning of validate_kernel_shape are extracted from the source text and proved equal to the model\'s (Props/SrcTieCli.lean). Round 9: blocks whose reference is constant (block gain exactly 0: gain 0, offset = the reference value), NaN-aware tests.',
   tech="Lean 4 proof (field_simp/ring/linarith over Q, list induction) + bit-exact differential correspondence run", ref='7 C01'),
  'C02': dict(
   text="Proof (Lean 4) over exact rationals: if ref = a x + b on the jointly valid pixels of a window, gain-offset OLS returns "
@@ -52,7 +52,7 @@ CHECKS = {
   note="Known finding D17 (open): gain-offset without in-painting loses an isolated valid pixel (degenerate window; witness theorem "
        "gain_offset_single_point_no_fit). GDAL validity rules R1 (average) / R2 (centre rule for up-sampling) are modelled and measured; no-gap tiling is C06's; "
        "re-masking after rounding is C13's. The converse is proved per pixel from explicit premises, not as one end-to-end theorem."
-       ' Input strata added from the seeded-change rounds: tie geometries, alpha sources with semi-transparent valid pixels, exactly constant source patches with in-painting on. Since round 8: a 1/64 m source against a reference with pixels 2048 source pixels long, the source\'s far edge one source pixel beyond a reference pixel edge (no window edge may be snapped away); expand_window_to_grid\'s source-text tie also serves this property.',
+       ' Input strata added from the seeded-change rounds: tie geometries, alpha sources with semi-transparent valid pixels, exactly constant source patches with in-painting on. Since round 8: a 1/64 m source against a reference with pixels 2048 source pixels long, the source\'s far edge one source pixel beyond a reference pixel edge (no window edge may be snapped away); expand_window_to_grid\'s source-text tie also serves this property. Round 9: the flat-patch case as one block with the in-paint threshold 0 (bottom of the documented range).',
   tech="Lean 4 proof (order/field facts over Q, list induction) + differential mask comparison on real fusions", ref='7 C03'),
  'C04': dict(
   text="Proof (Lean 4) on the block fan-out machine (4 locks, per-block straight-line program, any number of threads, any "
@@ -69,7 +69,7 @@ CHECKS = {
   note="Races inside GDAL below the proxies, the GIL and memory visibility are outside the model. The controller serialises "
        "worker threads, so only interleavings at yield points (lock acquire/release, first dataset access, fit, apply, job end) are "
        "explored - which is all that matters when every shared access is under a lock, and that premise is checked per access."
-       ' Added from the seeded-change rounds: lock-set discipline (some one controlled lock held at every access to a file; locks the code creates during a run come from a factory), schedules on objects that already did a single-threaded call, a free-running stress leg (switch interval 1 us) for races between byte-codes. The lock-set check sees Python-level locks only. Since round 8: a pass-through probe counts the threads inside read / dataset_mask of the parameter dataset shared by the workers of ParamStats.stats (more than one at a time is a failing input); validate_threads is extracted and proved (never more than the processors).',
+       ' Added from the seeded-change rounds: lock-set discipline (some one controlled lock held at every access to a file; locks the code creates during a run come from a factory), schedules on objects that already did a single-threaded call, a free-running stress leg (switch interval 1 us) for races between byte-codes. The lock-set check sees Python-level locks only. Since round 8: a pass-through probe counts the threads inside read / dataset_mask of the parameter dataset shared by the workers of ParamStats.stats (more than one at a time is a failing input); validate_threads is extracted and proved (never more than the processors). Round 9: compare on a 640 x 560 band (more than a megabyte) with the finer grid forced, 1 / 2 / 4 threads - the partition is a matter of max_block_mem alone.',
   tech="Lean 4 proof about a scheduler state machine + trace validation of real threads under a controlled scheduler", ref='7 C04'),
  'C05': dict(
   text="Proof (Lean 4): overlap_for_kernel = ceil(k/2) = radius + 1; the kernel window of every pixel within one pixel of a "
@@ -110,7 +110,7 @@ CHECKS = {
        "windows contain output windows) on the code's windows, also for source and reference in different CRSs.",
   note="Float behaviour of rasterio's affine maps is outside the proof: the proof needs both neighbours to derive a shared "
        "boundary by the same function of the same integer corner; that obligation is checked on the real code per case. "
-       "Block shape (_auto_block_shape) is read from the code and passed to the model (theorems hold for every s). Since round 8: sliver geometries - the dyadic geometries on a unit 1024 times finer with the source moved by 1-3 such units, so that window edges lie 1/20000 ... 1/700 pixel beside pixel edges of the other grid.",
+       "Block shape (_auto_block_shape) is read from the code and passed to the model (theorems hold for every s). Since round 8: sliver geometries - the dyadic geometries on a unit 1024 times finer with the source moved by 1-3 such units, so that window edges lie 1/20000 ... 1/700 pixel beside pixel edges of the other grid. Round 9: non-square pixels (rows twice as tall as wide, source or reference) and a same-ground predicate for the output windows (each edge within half a pixel of the processing window's).",
   tech="Lean 4 proof (induction/omega over integer grids) + differential correspondence run", ref='7 C06'),
 
  'C07': dict(
@@ -147,7 +147,7 @@ CHECKS = {
        "terminates within a watchdog, all four datasets closed, all locks free, reader reusable with the reference result; "
        "multi-thread traces replayed by the Lean machine with the same fault plan (outcome raised, locks free, all other blocks "
        "complete); CLI exit codes; compare and stats analogues.",
-  note="Faults inside GDAL that do not surface as Python exceptions are outside. The watchdog bound (60 s) stands for liveness. Since round 8: every fourth fault plan writes its outputs through the Erdas Imagine or ENVI driver.",
+  note="Faults inside GDAL that do not surface as Python exceptions are outside. The watchdog bound (60 s) stands for liveness. Since round 8: every fourth fault plan writes its outputs through the Erdas Imagine or ENVI driver. Round 9: CLI compare / stats exit status under block failures; worker threads alive after a failed call are a failing input (and are joined before the datasets are closed); failure of the last tile of the valid-data window pre-pass on an all-valid parameter image; an interpreter crash of the check process is reported as a violation.",
   tech="Lean 4 proof about the machine under fault plans + exhaustive single-fault enumeration on the real code",
   ref='7 C09', category='proof'),
  'C10': dict(
@@ -160,7 +160,7 @@ CHECKS = {
        "object / fresh objects / CLI / mixed; str and Path; overwrite on/off; with/without parameter image; pre-existing garbage "
        "or older outputs): outcomes and listings vs the machine, bytes+mtime of untouched files, decoded outputs vs fresh runs.",
   note="GDAL side-car files (.aux.xml, .msk, .ovr) are whitelisted. Content identity is the decoded raster (pixels, masks, "
-       "tags, descriptions), not the compressed bytes. Since round 8: an overwrite over outputs that own GDAL side-car files (strict GeoTIFF profile: tags in .aux.xml) must equal the same call into an empty directory - files, decoded content, tags, parameter statistics.",
+       "tags, descriptions), not the compressed bytes. Since round 8: an overwrite over outputs that own GDAL side-car files (strict GeoTIFF profile: tags in .aux.xml) must equal the same call into an empty directory - files, decoded content, tags, parameter statistics. Round 9: homonim fuse on a symbolic link to the source in another directory and on a relative source path, without --out-dir.",
   tech="Lean 4 proof (invariants over call histories of a state machine) + differential history runs", ref='7 C10'),
  'C11': dict(
   text="Proof (Lean 4) over exact rationals: block sums are additive over any split of the pixels, accumulating the blocks of any "
@@ -176,7 +176,7 @@ CHECKS = {
        "row = band average, CLI JSON = API.",
   note="Known findings (open): D7 forced finer processing grid with a non-nearest kernel (block-edge effects), D10 duplicate band "
        "names collapse rows, D11 N partition-dependent in tie geometry on a forced finer grid. Square roots are not modelled "
-       "(squares compared). GDAL cubic/cubic_spline up-sampling is not modelled (those cases only get the partition check).",
+       "(squares compared). GDAL cubic/cubic_spline up-sampling is not modelled (those cases only get the partition check). Round 9: near-identical pairs at 16-bit magnitudes (5000 / 40000 differing by 1-10 counts; reflectances differing by 1e-4) against the float64 definition of RMSE / rRMSE.",
   tech="Lean 4 proof (list induction, permutation invariance of a commutative fold, field algebra) + differential runs", ref='7 C11'),
  'C12': dict(
   text="Proof (Lean 4): tile accumulators are additive, tiling- and completion-order-invariant (tile_partition_invariant, "
@@ -188,7 +188,7 @@ CHECKS = {
        "figures equal across tilings, CLI JSON = API.",
   note="Bands holding +-inf (R2 with zero TSS) are outside the rational model and skipped in the value comparison. std is "
        "compared squared."
-       ' Since round 4 the +-inf bands are compared with their IEEE definitions (finding D20, fixed in /repo); thresholds outside [0, 1]; tiles without valid pixels inside the data window. Since round 8: thresholds whose repr has no decimal point (1e-05: finding D26, fixed in /repo); the valid-data window pre-pass is modelled (Model/StatsWindow.lean), proved never to hide a valid pixel of any band for any tiling and completion order (no_valid_pixel_skipped; counterexample for a first-band window), compared with the real _get_data_window and with the tiles stats() actually reads (datawin op), and tied to the source text; the FUSE_* tag contract between fuse, validate_param_image and ParamStats is extracted and proved (src_C12_tags).',
+       ' Since round 4 the +-inf bands are compared with their IEEE definitions (finding D20, fixed in /repo); thresholds outside [0, 1]; tiles without valid pixels inside the data window. Since round 8: thresholds whose repr has no decimal point (1e-05: finding D26, fixed in /repo); the valid-data window pre-pass is modelled (Model/StatsWindow.lean), proved never to hide a valid pixel of any band for any tiling and completion order (no_valid_pixel_skipped; counterexample for a first-band window), compared with the real _get_data_window and with the tiles stats() actually reads (datawin op), and tied to the source text; the FUSE_* tag contract between fuse, validate_param_image and ParamStats is extracted and proved (src_C12_tags). Round 9: end-to-end theorem stats_reads_all_valid_pixels (Props/StatsE2E.lean): the accumulator of the tiles read is the accumulator of all valid pixels of the band.',
   tech="Lean 4 proof (commutative-monoid fold invariance, algebra over Q) + differential runs", ref='7 C12'),
  'C13': dict(
   text="Proof (Lean 4): round-half-even is within half a unit and ties go to even (rhe_nearest, rhe_tie_even); a valid float32 "
@@ -209,7 +209,7 @@ CHECKS = {
        "layout; tags; ParamStats accepts; parameter mask = jointly valid on the processing grid (model validity rules); "
        "source-grid identity bit for bit.",
   note="The value content of the parameter bands is C01/C05's; degenerate windows are excluded from the mask comparison "
-       "(gain-offset skipped there). Since round 8: one reference band paired with several source bands (`repeat` selections); validate_param_image's count test, required tags and suffix list are extracted and proved to match what fuse writes (src_C12_label_matches_suffix).",
+       "(gain-offset skipped there). Since round 8: one reference band paired with several source bands (`repeat` selections); validate_param_image's count test, required tags and suffix list are extracted and proved to match what fuse writes (src_C12_label_matches_suffix). Round 9: a parameter image with non-finite statistics (R2 = -inf over a constant reference patch) is accepted by the API, homonim stats and homonim stats --output.",
   tech="Lean 4 proof (Nat division/modulo arithmetic, list computation) + bit-identity differential runs", ref='7 C14'),
  'C15': dict(
   text="Proof (Lean 4) about the executable model of _match_pair_bands (greedy loop with masked-array semantics, threshold, "
@@ -272,7 +272,7 @@ CHECKS = {
        "combine_profiles vs the model on generated profiles.",
   note="Partial: WarpedVRT (north-up re-projection, CRS changes), rotated and cross-CRS inputs are exercised, not modelled; "
        "south-up storage is only generated on dyadic geometry (a flipped decimal grid is an ulp off the north-up one)."
-       ' Known finding D21 (open): with different CRSs and the source grid as processing grid the corrected image is written on the re-projected source grid. Since round 8: bands paired by hand against the wavelengths with force=True - the corrected bands carry the tags of the bands they were paired with.',
+       ' Known finding D21 (open): with different CRSs and the source grid as processing grid the corrected image is written on the re-projected source grid. Since round 8: bands paired by hand against the wavelengths with force=True - the corrected bands carry the tags of the bands they were paired with. Round 9: numeric settings (thresholds 1/3, 0.123456789; the computed block memory) must parse back exactly from the FUSE_* tags of both outputs.',
   tech="Lean 4 proof of the decision logic (+ corollary of the matcher theorem) + differential runs", ref='7 C18'),
  'C19': dict(
   text="Proof (Lean 4) of the front-end logic: per-key precedence command line > file > default (merge_precedence), file keys "
@@ -301,7 +301,7 @@ CHECKS = {
        "Tied to the code by ~4000 reads (exhaustive per-axis windows, 4 dtype/nodata/mask/band variants), ~200 writes and 50 "
        "writes of blocks with invalid pixels into internal-mask / numeric-nodata datasets, compared pixel by pixel.",
   note="GDAL read/write of an in-range window is trusted to transfer pixels faithfully; dtype conversion on write belongs to C13."
-       ' Findings D22 (multi-band block with conversion) and D23 (window=None on decimal grids) were fixed in /repo; legs for both, for rotated / sheared / south-up reads and for values near a numeric nodata value.',
+       ' Findings D22 (multi-band block with conversion) and D23 (window=None on decimal grids) were fixed in /repo; legs for both, for rotated / sheared / south-up reads and for values near a numeric nodata value. Round 9: blocks whose mask was read, then edited in place through ra.array[...], then written: the window reads back the block as edited.',
   tech="Lean 4 proof (omega over integer windows, list extensionality) + exhaustive small-window differential run", ref='7 C20'),
 }
 NA_REASON = 'check not built yet in this round (planned: see DESIGN.md section 7); nothing is claimed for it'
